@@ -85,9 +85,9 @@ Theorem C16_records_roundtrip : forall f, struct_dom f = true -> numeric_mix f =
 Proof. exact records_roundtrip. Qed.
 Print Assumptions C16_records_roundtrip.
 
-(* pickle: with __setstate__ as coded the content and names are unchanged and every block and label array is
-   read-only again (the positions arrays are not: Refuted/C16.v). *)
+(* pickle: with __setstate__ as coded the content and names are unchanged and every block, label array and
+   positions array is read-only again. *)
 Theorem C16_pickle_roundtrip : forall f,
-  pframe_content (M_unpickle f) = pframe_content f /\ data_readonly (M_unpickle f) = true.
+  pframe_content (M_unpickle f) = pframe_content f /\ all_readonly (M_unpickle f) = true.
 Proof. exact pickle_roundtrip. Qed.
 Print Assumptions C16_pickle_roundtrip.
